@@ -142,7 +142,6 @@ func sortAll(c *core.Ctx, keys []int, r *core.Rand) bool {
 		return false
 	}
 	c.Count("inputs", 1)
-	less := func(a, b tg) bool { return a.Key < b.Key }
 	mk := func() []tg {
 		// spare capacity with sentinels: sorting must stay within len(slice)
 		s := make([]tg, n, n+2)
@@ -151,10 +150,6 @@ func sortAll(c *core.Ctx, keys []int, r *core.Rand) bool {
 		}
 		s[:n+2][n], s[:n+2][n+1] = tg{-1 << 50, -7}, tg{1 << 50, -7}
 		return s
-	}
-	spareOK := func(s []tg) bool {
-		e := s[:cap(s)]
-		return len(e) == n+2 && e[n] == tg{-1 << 50, -7} && e[n+1] == tg{1 << 50, -7}
 	}
 	isPerm := func(s []tg) bool {
 		seen := make([]bool, n)
@@ -169,44 +164,29 @@ func sortAll(c *core.Ctx, keys []int, r *core.Rand) bool {
 		}
 		return true
 	}
-	type variant struct {
-		name   string
-		run    func(s []tg)
-		desc   bool
-		stable bool
+	if !sortFuncVariants(c, keys, "16B", fail, func(k, i int) tg { return tg{k, i} }, func(e tg) (int, int) { return e.Key, e.Idx }) {
+		return false
 	}
-	vs := []variant{
-		{"SortFunc", func(s []tg) { slices.SortFunc(s, less) }, false, false},
-		{"SortDescFunc", func(s []tg) { slices.SortDescFunc(s, less) }, true, false},
-		{"SortStableFunc", func(s []tg) { slices.SortStableFunc(s, less) }, false, true},
-		{"SortStableDescFunc", func(s []tg) { slices.SortStableDescFunc(s, less) }, true, true},
-	}
-	for _, v := range vs {
-		s := mk()
-		if p, pv := core.Catch(func() { v.run(s) }); p {
-			return fail(v.name+":panic", fmt.Sprintf("%s panicked: %v", v.name, pv))
+	// the same four sorts on element types of other sizes (move-minimising or
+	// index-sorting paths are chosen by element size)
+	switch r.Intn(4) {
+	case 0:
+		if !sortFuncVariants(c, keys, "176B", fail, func(k, i int) tgBig { return tgBig{Key: k, Idx: i} }, func(e tgBig) (int, int) { return e.Key, e.Idx }) {
+			return false
 		}
-		c.Count("sorts", 1)
-		if !isPerm(s) {
-			return fail(v.name+":not-a-permutation", v.name+" result is not a permutation of the input")
+	case 1:
+		if !sortFuncVariants(c, keys, "336B", fail, func(k, i int) tgHuge { return tgHuge{Key: k, Idx: i} }, func(e tgHuge) (int, int) { return e.Key, e.Idx }) {
+			return false
 		}
-		if !spareOK(s) {
-			return fail(v.name+":wrote-beyond-len", v.name+" touched the spare capacity of the slice")
-		}
-		for i := 1; i < n; i++ {
-			a, b := s[i-1], s[i]
-			if !v.desc && less(b, a) {
-				return fail(v.name+":order", fmt.Sprintf("%s: element %d (%v) is less than its predecessor (%v)", v.name, i, b, a))
-			}
-			if v.desc && less(a, b) {
-				return fail(v.name+":order", fmt.Sprintf("%s: element %d (%v) is greater than its predecessor (%v)", v.name, i, b, a))
-			}
-			if v.stable && a.Key == b.Key && a.Idx > b.Idx {
-				return fail(v.name+":not-stable", fmt.Sprintf("%s: equal elements %v and %v swapped their original order", v.name, a, b))
+	case 2:
+		if n < 30000 {
+			if !sortFuncVariants(c, keys, "4B", fail, func(k, i int) tgTiny { return tgTiny{int16(k), int16(i)} }, func(e tgTiny) (int, int) { return int(e.Key), int(e.Idx) }) {
+				return false
 			}
 		}
-		if v.stable {
-			c.Count("stable_tie_pairs_checked", int64(countTies(s)))
+	case 3:
+		if !sortFuncVariants(c, keys, "ptr", fail, func(k, i int) *tg { return &tg{k, i} }, func(e *tg) (int, int) { return e.Key, e.Idx }) {
+			return false
 		}
 	}
 	// ordered variants on ints, strings, floats
@@ -331,6 +311,111 @@ func sortAll(c *core.Ctx, keys []int, r *core.Rand) bool {
 			return fail("Shuffle:not-a-permutation", "Shuffle result is not a permutation")
 		}
 		c.Count("shuffles", 3)
+	}
+	return true
+}
+
+type tgBig struct {
+	Key int
+	pad [20]int64
+	Idx int
+}
+type tgHuge struct {
+	pad  [20]int64
+	Key  int
+	pad2 [20]int64
+	Idx  int
+}
+type tgTiny struct{ Key, Idx int16 }
+
+// sortFuncVariants runs SortFunc, SortDescFunc, SortStableFunc and SortStableDescFunc on
+// elements built from (key, original index) and judges permutation, order, stability
+// and that nothing beyond len(slice) was touched.
+func sortFuncVariants[E comparable](c *core.Ctx, keys []int, tname string, fail func(sig, msg string) bool, mkE func(k, i int) E, ki func(E) (int, int)) bool {
+	n := len(keys)
+	// keys as the element type can represent them (int16 truncation for the tiny type)
+	ekeys := make([]int, n)
+	for i, k := range keys {
+		ekeys[i], _ = ki(mkE(k, i))
+	}
+	less := func(a, b E) bool { ka, _ := ki(a); kb, _ := ki(b); return ka < kb }
+	s1, s2 := mkE(-30000, -7), mkE(30000, -7)
+	mk := func() []E {
+		s := make([]E, n, n+2)
+		for i, k := range keys {
+			s[i] = mkE(k, i)
+		}
+		s[:n+2][n], s[:n+2][n+1] = s1, s2
+		return s
+	}
+	ptr := tname == "ptr"
+	same := func(a, b E) bool {
+		if !ptr {
+			return a == b
+		}
+		ka, ia := ki(a)
+		kb, ib := ki(b)
+		return ka == kb && ia == ib
+	}
+	type variant struct {
+		name   string
+		run    func(s []E)
+		desc   bool
+		stable bool
+	}
+	vs := []variant{
+		{"SortFunc", func(s []E) { slices.SortFunc(s, less) }, false, false},
+		{"SortDescFunc", func(s []E) { slices.SortDescFunc(s, less) }, true, false},
+		{"SortStableFunc", func(s []E) { slices.SortStableFunc(s, less) }, false, true},
+		{"SortStableDescFunc", func(s []E) { slices.SortStableDescFunc(s, less) }, true, true},
+	}
+	sfx := ""
+	if tname != "16B" {
+		sfx = "[" + tname + " elements]"
+	}
+	for _, v := range vs {
+		s := mk()
+		if p, pv := core.Catch(func() { v.run(s) }); p {
+			return fail(v.name+":panic"+sfx, fmt.Sprintf("%s panicked: %v", v.name, pv))
+		}
+		c.Count("sorts", 1)
+		c.Count("sorts_elem_"+tname, 1)
+		seen := make([]bool, n)
+		perm := len(s) == n
+		for _, e := range s {
+			k, i := ki(e)
+			if !perm || i < 0 || i >= n || seen[i] || ekeys[i] != k {
+				perm = false
+				break
+			}
+			seen[i] = true
+		}
+		if !perm {
+			return fail(v.name+":not-a-permutation"+sfx, v.name+" result is not a permutation of the input")
+		}
+		if e := s[:cap(s)]; len(e) != n+2 || !same(e[n], s1) || !same(e[n+1], s2) {
+			return fail(v.name+":wrote-beyond-len"+sfx, v.name+" touched the spare capacity of the slice")
+		}
+		ties := 0
+		for i := 1; i < n; i++ {
+			ka, ia := ki(s[i-1])
+			kb, ib := ki(s[i])
+			if !v.desc && kb < ka {
+				return fail(v.name+":order"+sfx, fmt.Sprintf("%s: element %d (key %d) is less than its predecessor (key %d)", v.name, i, kb, ka))
+			}
+			if v.desc && ka < kb {
+				return fail(v.name+":order"+sfx, fmt.Sprintf("%s: element %d (key %d) is greater than its predecessor (key %d)", v.name, i, kb, ka))
+			}
+			if ka == kb {
+				ties++
+				if v.stable && ia > ib {
+					return fail(v.name+":not-stable"+sfx, fmt.Sprintf("%s: equal elements {key %d, originally at %d} and {key %d, originally at %d} swapped their original order", v.name, ka, ia, kb, ib))
+				}
+			}
+		}
+		if v.stable {
+			c.Count("stable_tie_pairs_checked", int64(ties))
+		}
 	}
 	return true
 }
